@@ -289,11 +289,13 @@ class StereoMolGraph(MolGraph):
 
         for central_atom, atoms_atom_stereo in self._atom_stereo.items():
             atoms_set = set((*atoms_atom_stereo.atoms, central_atom))
+            atoms_set.discard(None)
             if all(atom in atoms for atom in atoms_set):
                 new_graph.set_atom_stereo(atoms_atom_stereo)
 
         for _bond, bond_stereo in self._bond_stereo.items():
-            if all(atom in atoms for atom in bond_stereo.atoms):
+            if all(atom in atoms for atom in bond_stereo.atoms
+                   if atom is not None):
                 new_graph.set_bond_stereo(bond_stereo)
         return new_graph
 
